@@ -293,6 +293,9 @@ fn strip_allow(p: &mut crate::model::Program) {
     let keep = |a: &AttrM| a.directive != "allow";
     for f in &mut p.files {
         f.file_attrs.retain(keep);
+        if let Some(m) = &mut f.module {
+            m.attrs.retain(keep);
+        }
         for d in &mut f.defs {
             d.pre_mut().attrs.retain(keep);
             match d {
@@ -312,6 +315,194 @@ fn strip_allow(p: &mut crate::model::Program) {
             }
         }
     }
+}
+
+// ---- random programs with many lints ----------------------------------------------------------------
+
+/// Doc lines that produce one lint of a given kind on any commentable element that is not an operation.
+const PLANTS: [(&str, &str); 5] = [
+    ("BrokenDocLink", " see {@link NoSuchThing9} here"),
+    ("MalformedDocComment", " @foo bar"),
+    ("MalformedDocComment", " uses {@param x} inline"),
+    ("IncorrectDocComment", " @returns: text"),
+    ("IncorrectDocComment", " @param x: text"),
+];
+
+const NAMES: [&str; 5] = ["Deprecated", "BrokenDocLink", "IncorrectDocComment", "MalformedDocComment", "All"];
+
+/// Random programs (deprecated definitions with uses, doc comments, planted comment defects) with
+/// 1..4 random suppressions (command line, file attribute, any definition or member).  The statement's
+/// predicate is evaluated independently of the implementation's notion of scope: the element a lint
+/// concerns is the innermost element whose text (doc comment and attributes included) contains the
+/// lint's location, as recorded by the printer; it is silenced iff the command line, its file's
+/// attributes, that element or an element enclosing it names the lint or All.
+fn random_case(cx: &mut CaseCtx, input: Input, cfg: &crate::gen::GenCfg) -> CaseResult {
+    use crate::gen::{gen_program, pick};
+    use crate::model::*;
+    let (lay_bytes, prog_bytes) = crate::c02::split_input(input.bytes());
+    let mut u = arbitrary::Unstructured::new(prog_bytes);
+    let (mut p0, _labels) = gen_program(&mut u, cfg);
+    strip_allow(&mut p0);
+    // planted comment defects
+    let victims: Vec<(String, &'static str)> = crate::c16::commentables(&p0).iter().map(|c| (c.0.clone(), c.3)).collect();
+    if victims.is_empty() {
+        cx.label("no-commentable-element");
+        return Ok(());
+    }
+    for _ in 0..pick(&mut u, 4) {
+        let (path, kind) = victims[pick(&mut u, victims.len())].clone();
+        let (_lint, line) = PLANTS[pick(&mut u, PLANTS.len())];
+        if kind == "operation" || (kind == "enumerator" && line.contains("@param")) {
+            continue;
+        }
+        if let Some(pre) = crate::c16::victim_prelude(&mut p0, &path) {
+            pre.doc = vec![line.to_owned()];
+            pre.docm = None;
+        }
+    }
+    if !crate::rules::check_program(&p0).well_formed() {
+        cx.label("skipped-ill-formed");
+        return Ok(());
+    }
+    // suppressions
+    let mut p1 = p0.clone();
+    let mut cli: Vec<String> = Vec::new();
+    let nsup = 1 + pick(&mut u, 4);
+    let mut placed: Vec<String> = Vec::new();
+    for _ in 0..nsup {
+        let mut args: Vec<&str> = vec![NAMES[pick(&mut u, NAMES.len())]];
+        if pick(&mut u, 3) == 0 {
+            args.push(NAMES[pick(&mut u, NAMES.len())]);
+        }
+        match pick(&mut u, 6) {
+            0 => {
+                cli.extend(args.iter().map(|s| s.to_string()));
+                placed.push(format!("cli:{}", args.join("+")));
+            }
+            1 => {
+                let fi = pick(&mut u, p1.files.len());
+                p1.files[fi].file_attrs.push(AttrM::new("allow", &args));
+                placed.push(format!("file{fi}:{}", args.join("+")));
+            }
+            _ => {
+                let (path, _kind) = victims[pick(&mut u, victims.len())].clone();
+                if let Some(pre) = crate::c16::victim_prelude(&mut p1, &path) {
+                    pre.attrs.push(AttrM::new("allow", &args));
+                    placed.push(format!("{path}:{}", args.join("+")));
+                }
+            }
+        }
+    }
+    if !crate::rules::check_program(&p1).well_formed() {
+        cx.label("skipped-suppression-makes-ill-formed");
+        return Ok(());
+    }
+    cx.set_key(&(&p1, &cli));
+    let (texts0, _r0) = crate::c02::render_layout(&p0, lay_bytes, 1);
+    let (texts1, rendered1) = crate::c02::render_layout(&p1, lay_bytes, 1);
+    cx.sample_with(|| json!({"files": texts1, "allow_on_command_line": cli, "suppressions": placed}));
+    if std::env::var_os("VCHECK_NO_COMPILE").is_some() {
+        return Ok(());
+    }
+    let src = || format!("--- with suppressions {placed:?}, -A {cli:?} ---\n{}", texts1.join("\n=====\n"));
+    let base_opts = SliceOptions::default();
+    let state0 = compile_strings(&texts0, Some(&base_opts));
+    let observed0 = observe_program(&state0);
+    let d0 = diagnostics_of(state0, &base_opts);
+    let opts = options_with(&cli);
+    let state1 = compile_strings(&texts1, Some(&opts));
+    let paths: Vec<String> = state1.files.iter().map(|f| f.relative_path.clone()).collect();
+    let observed1 = observe_program(&state1);
+    let d1 = diagnostics_of(state1, &opts);
+    if d0.iter().any(|d| d.level == "error") {
+        // the generator's own business (C04); an error must at least survive the suppressions
+        cx.label("base-has-errors");
+        for e in d0.iter().filter(|d| d.level == "error") {
+            check!(
+                d1.iter().any(|x| x.code == e.code && x.message == e.message && x.level == "error"),
+                format!("error-silenced/{}", e.code),
+                "{} ({}) is not an error any more with the suppressions\n{}",
+                e.code,
+                e.message,
+                src()
+            );
+        }
+        return Ok(());
+    }
+    // nothing else changes: same diagnostics (code, message) in the same order
+    let a: Vec<(&str, &str)> = d1.iter().map(|d| (d.code.as_str(), d.message.as_str())).collect();
+    let b: Vec<(&str, &str)> = d0.iter().map(|d| (d.code.as_str(), d.message.as_str())).collect();
+    check!(a == b, "random/suppression-changed-other-diagnostics", "with: {a:?}\nwithout: {b:?}\n{}", src());
+    for d in &d0 {
+        check!(d.level == "warning", format!("random/base-level/{}", d.code), "without any suppression {} has level {}\n{}", d.code, d.level, src());
+    }
+    // levels by the statement's predicate
+    let names = |args: &[String], code: &str| args.iter().any(|a| a == code || a == "All");
+    let mut lints = 0;
+    let mut silenced = 0;
+    for d in &d1 {
+        if !LINTS.contains(&d.code.as_str()) {
+            continue;
+        }
+        let Some((start, end, file)) = &d.span else { continue };
+        let Some(fi) = paths.iter().position(|p| p == file) else { continue };
+        lints += 1;
+        // innermost element whose text contains the location, and everything enclosing it
+        let r = &rendered1[fi];
+        let mut chain: Vec<&String> = r
+            .elems
+            .iter()
+            .filter(|(k, e)| {
+                let first = e.prelude_first.unwrap_or(e.first).min(e.first);
+                let mut from = r.tok_start(first);
+                if let Some(doc) = r.docs.get(*k).and_then(|d| d.first()) {
+                    from = from.min(doc.slashes);
+                }
+                from <= *start && *end <= r.tok_end(e.last)
+            })
+            .map(|(k, _)| k)
+            .collect();
+        chain.sort_by_key(|k| k.len());
+        let mut by: Vec<String> = Vec::new();
+        if names(&cli, &d.code) {
+            by.push("command line".into());
+        }
+        if p1.files[fi].file_attrs.iter().any(|a| a.directive == "allow" && names(&a.args, &d.code)) {
+            by.push(format!("file {fi}"));
+        }
+        let mut p1m = p1.clone();
+        for path in &chain {
+            if let Some(pre) = crate::c16::victim_prelude(&mut p1m, path) {
+                if pre.attrs.iter().any(|a| a.directive == "allow" && names(&a.args, &d.code)) {
+                    by.push((*path).clone());
+                }
+            }
+        }
+        let want = if by.is_empty() { "warning" } else { "allowed" };
+        if !by.is_empty() {
+            silenced += 1;
+        }
+        cx.label(format!("random/{}/{}", d.code, want));
+        check!(
+            d.level == want,
+            format!("random/{}/{}", if by.is_empty() { "wrongly-silenced" } else { "not-silenced" }, d.code),
+            "{} ({:?}) at {start:?} of file {fi} has level {}, expected {want}: named by {by:?}; enclosing elements {chain:?}\n{}",
+            d.code,
+            d.message,
+            d.level,
+            src()
+        );
+    }
+    cx.nontrivial = lints >= 1;
+    cx.label_if(lints >= 3, "random/three-or-more-lints");
+    cx.label_if(silenced >= 1 && silenced < lints, "random/some-silenced-some-not");
+    // the AST differs only by the added attributes
+    let mut s1 = observed1;
+    strip_allow(&mut s1);
+    let mut s0 = observed0;
+    strip_allow(&mut s0);
+    check!(s1 == s0, "random/suppression-changed-ast", "the AST differs by more than the added attributes\n{}", src());
+    Ok(())
 }
 
 /// Errors are never silenced: one injected error, `allow(All)` everywhere and `-A All`.
@@ -433,7 +624,7 @@ impl Check for C13 {
         "C13"
     }
     fn rule(&self) -> String {
-        format!("families: matrix = all {MATRIX_TOTAL} cells lint kind (Deprecated, BrokenDocLink, IncorrectDocComment, MalformedDocComment) x site (10 uses of a deprecated type: field, nested type, enumerator field, parameter, single return, return member, alias target, interface base, enum underlying, dictionary value; 9 commented entities) x placement (none, command line, command line in another case, file attribute, outer enclosing definition, inner enclosing definition, the element itself, unrelated sibling, another file's attribute) x argument (that lint, All, another lint, that + another, another + All), in-process; errors = 8 error kinds x allow(All) everywhere x -A lists; binary = command-line spellings, DuplicateFile, exit status, request identity. Oracle: the statement's predicate gives the expected level; with/without pairs differ in nothing but that level and the added attribute. Non-trivial = a suppression is present")
+        format!("families: matrix = all {MATRIX_TOTAL} cells lint kind (Deprecated, BrokenDocLink, IncorrectDocComment, MalformedDocComment) x site (10 uses of a deprecated type: field, nested type, enumerator field, parameter, single return, return member, alias target, interface base, enum underlying, dictionary value; 9 commented entities) x placement (none, command line, command line in another case, file attribute, outer enclosing definition, inner enclosing definition, the element itself, unrelated sibling, another file's attribute) x argument (that lint, All, another lint, that + another, another + All), in-process; errors = 8 error kinds x allow(All) everywhere x -A lists; binary = command-line spellings, DuplicateFile, exit status, request identity; random = proptest choice sequences -> programs with deprecated definitions and their uses, doc comments and up to 3 planted comment defects, plus 1..4 suppressions (command line, file attribute, any definition or member; one or two names each) in free layouts. Oracle: the statement's predicate gives the expected level (in the random family the element a lint concerns is found independently of the implementation's scope strings: the innermost element whose text, doc comment and attributes included, contains the lint's location as recorded by the printer); with/without pairs differ in nothing but that level and the added attribute. Non-trivial = a suppression is present (matrix) / at least one located lint judged (random)")
     }
     fn assumptions(&self) -> Vec<String> {
         vec![
@@ -454,6 +645,12 @@ impl Check for C13 {
             "placement:enclosing-inner",
             "placement:element",
             "placement:sibling",
+            "random/Deprecated/allowed",
+            "random/Deprecated/warning",
+            "random/BrokenDocLink/allowed",
+            "random/IncorrectDocComment/allowed",
+            "random/MalformedDocComment/warning",
+            "random/some-silenced-some-not",
             "placement:other-file",
             "argument:two-attributes-other-then-that",
             "decoy-allow-closer-to-the-site",
@@ -468,8 +665,13 @@ impl Check for C13 {
     fn needs_binary(&self) -> bool {
         true
     }
-    fn families(&self, _tier: Tier) -> Vec<Family<'_>> {
+    fn fuzz_families(&self, _tier: Tier) -> Vec<(&'static str, u64)> {
+        vec![("random", 6000)]
+    }
+    fn families(&self, tier: Tier) -> Vec<Family<'_>> {
+        let cfg = crate::gen::GenCfg { deprecated: true, doc_chance: 90, max_files: 2, max_defs: 6, ..Default::default() };
         vec![
+            Family::bytes("random", 600, tier.pick(1_500, 40_000), move |cx, i| random_case(cx, i, &cfg)),
             Family::enumerate("matrix", MATRIX_TOTAL, 1, matrix_case),
             Family::enumerate("errors", 24, 1, errors_case),
             Family::enumerate("binary", 36, 1, binary_case),
